@@ -396,7 +396,7 @@ def _has_zero_leaf(t, depth=0):
     return False
 
 
-@rule("R-KEY-DECLARED", ["C16", "C14"])
+@rule("R-KEY-DECLARED", ["C16", "C14", "C13"])
 def r_key_declared(cx):
     """every parameter key an operator reads at apply time is one its constructor declares (gamut), stores, or one of
     the implicit keys: a key that nobody declares can never be set, so the option it stands for is silently ignored"""
